@@ -261,6 +261,50 @@ impl Gen {
                 }
             }
             "saturate" => self.saturate(r),
+            "retainchain" => {
+                // C10 / C01: long collision chains (several probe groups), then bulk removal through
+                // retain / extract_if (erase behind the iterator, EMPTY-vs-DELETED choice at group edges),
+                // then look-ups of the survivors and re-insertion of removed keys.
+                let d = r.dump("a");
+                let live = d.items as u64;
+                match self.phase {
+                    0 => {
+                        // grow to a target well above two groups
+                        if live >= self.target_buckets as u64 / 2 + 24 || self.rng.chance(1, 60) {
+                            self.phase = 1;
+                        }
+                        let k = self.key();
+                        format!("a {}", self.insert(k))
+                    }
+                    1 => {
+                        self.phase = 2;
+                        self.fresh_key = 0;
+                        match self.rng.below(4) {
+                            0 => format!("a extract_if {}", self.rng.below(live + 2)),
+                            1 => format!("a extract_if {}", live + 1),
+                            _ => "a retain".to_string(),
+                        }
+                    }
+                    _ => {
+                        self.fresh_key += 1;
+                        if self.fresh_key > 14 + self.rng.below(10) {
+                            self.phase = if self.rng.chance(1, 3) { 1 } else { 0 };
+                        }
+                        let x = self.rng.below(10);
+                        if x < 7 {
+                            match self.present_key(r, "a") {
+                                Some(k) => format!("a get {}", k),
+                                None => format!("a get {}", self.key()),
+                            }
+                        } else if x < 9 {
+                            let k = self.key();
+                            format!("a {}", self.insert(k))
+                        } else {
+                            format!("a remove {}", self.key())
+                        }
+                    }
+                }
+            }
             "clone" => {
                 // clone / clone_from between a and b in every size relation, then mutate either side
                 let x = self.rng.below(100);
